@@ -11,7 +11,8 @@ From PintV Require Import Common.Bytes Model.SummarySort.
 Import ListNotations.
 
 (** the fields of discovery.Entry a report copies ([e_rule] = class of entry.Rule under IsSame, [e_name] = Rule.Name()) *)
-Record jentry := { e_path : string; e_target : string; e_owner : string; e_rule : N; e_name : string }.
+Record jentry := { e_path : string; e_target : string; e_owner : string; e_rule : N; e_name : string;
+                   e_rfirst : Z; e_rlast : Z   (* entry.Rule.Lines *) }.
 
 (** checks.Problem *)
 Record problem := { p_reporter : string; p_summary : string; p_details : string; p_diags : list diag;
@@ -21,7 +22,8 @@ Record problem := { p_reporter : string; p_summary : string; p_details : string;
 Definition mk_report (e : jentry) (p : problem) : report :=
   {| r_path := e_path e; r_target := e_target e; r_owner := e_owner e; r_rule := e_rule e; r_name := e_name e;
      r_reporter := p_reporter p; r_summary := p_summary p; r_details := p_details p; r_diags := p_diags p;
-     r_lfirst := p_lfirst p; r_llast := p_llast p; r_sev := p_sev p; r_anchor_before := p_anchor_before p |}.
+     r_lfirst := p_lfirst p; r_llast := p_llast p; r_sev := p_sev p; r_anchor_before := p_anchor_before p;
+     r_rfirst := e_rfirst e; r_rlast := e_rlast e |}.
 
 (** a job = its entry and what its check answered *)
 Definition job := (jentry * list problem)%type.
